@@ -926,9 +926,6 @@ def gen_cstat_lines(ctx):
         for pi, pform in enumerate(PRIOR_FORMS):
             for a, p in enumerate(STATUSES):
                 for b, c in enumerate(STATUSES):
-                    # quick: the prior form rotates (every (carrier, p, c) once); thorough: the full product
-                    if ctx.quick and pi != (ci + a + b) % len(PRIOR_FORMS):
-                        continue
                     n += 1
                     ident = "L%d" % n
                     body = SUBST_BODY_FORMS[(n + ci) % len(SUBST_BODY_FORMS)]
